@@ -478,7 +478,29 @@ class ProductState:
             Traced out system including only the requested states in tesored
             in the order in which the states are given
         """
-        if self.expansion_level == ExpansionLevel.Vector:
+        if self.expansion_level == ExpansionLevel.Vector and len(states) < len(
+            self.state_objs
+        ):
+            # A part of a pure state is mixed in general, trace the density matrix
+            dims = [s.dimensions for s in self.state_objs]
+            psi = self.state.flatten()
+            rho = jnp.outer(psi, jnp.conj(psi)).reshape(dims * 2)
+            einsum = ESC.trace_out_matrix(self.state_objs, list(states))
+            new_dims = jnp.prod(jnp.array([s.dimensions for s in states]))
+            reduced = jnp.einsum(einsum, rho).reshape((new_dims, new_dims))
+            reduced = reduced / jnp.trace(reduced)
+            if jnp.abs(jnp.trace(jnp.matmul(reduced, reduced)) - 1) < 1e-6:
+                # Not entangled with the rest: the reduced state is a vector, it is
+                # read off the amplitudes at the most likely configuration of the rest
+                kept = [self.state_objs.index(s) for s in states]
+                rest = [i for i in range(len(dims)) if i not in kept]
+                amplitudes = psi.reshape(dims).transpose(kept + rest)
+                amplitudes = amplitudes.reshape((int(new_dims), -1))
+                norms = jnp.linalg.norm(amplitudes, axis=0)
+                k = int(jnp.argmax(norms))
+                return (amplitudes[:, k] / norms[k]).reshape((-1, 1))
+            return reduced
+        elif self.expansion_level == ExpansionLevel.Vector:
             # Reshape the vector into tensor
             shape = [s.dimensions for s in self.state_objs] + [1]
             ps = self.state.reshape(shape)
